@@ -1,4 +1,5 @@
 import abc
+import math
 
 import torch
 
@@ -67,8 +68,9 @@ class Condition(torch.nn.Module):
         data_functions = {
             fun: UserFunction(data_functions[fun]) for fun in data_functions
         }
-        if isinstance(sampler, StaticSampler):
-            # functions can be evaluated once
+        if isinstance(sampler, StaticSampler) and sampler.resample_interval == math.inf:
+            # functions can be evaluated once (if the sampler creates new points after
+            # some iterations, the functions have to be evaluated at the new points)
             for fun in data_functions:
                 points = sampler.sample_points()
                 data_fun_points = data_functions[fun](points)
@@ -292,7 +294,8 @@ class SingleModuleCondition(Condition):
     def _move_static_data(self, device):
         if self.sampler.is_static:
             for fn in self.data_functions:
-                self.data_functions[fn].fun = self.data_functions[fn].fun.to(device)
+                if isinstance(self.data_functions[fn].fun, torch.Tensor):
+                    self.data_functions[fn].fun = self.data_functions[fn].fun.to(device)
 
 
 class MeanCondition(SingleModuleCondition):
@@ -782,7 +785,8 @@ class IntegroPINNCondition(Condition):
     def _move_static_data(self, device):
         if self.sampler.is_static:
             for fn in self.data_functions:
-                self.data_functions[fn].fun = self.data_functions[fn].fun.to(device)
+                if isinstance(self.data_functions[fn].fun, torch.Tensor):
+                    self.data_functions[fn].fun = self.data_functions[fn].fun.to(device)
 
 
 class AdaptiveWeightsCondition(SingleModuleCondition):
@@ -1067,7 +1071,8 @@ class HPM_EquationLoss_at_Sampler(Condition):
     def _move_static_data(self, device):
         if self.sampler.is_static:
             for fn in self.data_functions:
-                self.data_functions[fn].fun = self.data_functions[fn].fun.to(device)
+                if isinstance(self.data_functions[fn].fun, torch.Tensor):
+                    self.data_functions[fn].fun = self.data_functions[fn].fun.to(device)
 
 
 class HPCMCondition(Condition):
